@@ -27,7 +27,7 @@ using sim::Outcome;
 using sim::SimError;
 using sim::Tracked;
 
-enum Producer : int { kSetValue, kSetError, kSetException, kDropPromise, kProducerCount };
+enum Producer : int { kSetValue, kSetError, kSetException, kDropPromise, kSetThrowsThenDrop, kProducerCount };
 enum Consumer : int {
   kGet,
   kThenInline,
@@ -45,7 +45,8 @@ enum Consumer : int {
 };
 enum Exec : int { kExInline, kExManual, kExPool, kExecCount };
 
-const char* kProducerNames[] = {"Set(value)", "Set(error)", "Set(exception)", "drop promise"};
+const char* kProducerNames[] = {"Set(value)", "Set(error)", "Set(exception)", "drop promise",
+                                "Set(v) throws while constructing the value, then the (still unset) promise is dropped"};
 const char* kConsumerNames[] = {"Get&&",        "ThenInline",  "Then(e)",  "Detach()", "DetachInline(f)",
                                 "Detach(e,f)",  "poll Get&",   "Wait+Touch", "Connect",  "drop future",
                                 "WaitFor+Get",  "WaitUntil+ThenInline"};
@@ -182,6 +183,20 @@ class Case final : public sim::CaseBase {
       case kSetException:
         std::move(p).Set(sim::MakeEx(id));
         break;
+      case kSetThrowsThenDrop:
+        if constexpr (!std::is_void_v<V>) {
+          // fault: constructing the value in the shared state throws; Set must leave the promise unset and valid
+          SIM_FAULT("value_construction_throws_in_set");
+          try {
+            std::move(p).Set(sim::Bomb{id});
+            sim::Fail("HARNESS", "Set(Bomb) did not throw");
+          } catch (const sim::TaggedEx&) {
+          }
+          if (!p.Valid()) {
+            sim::Fail("PROMISE_LOST_BY_FAILED_SET", "Set threw while constructing the value, but the promise is no longer valid: nothing can complete the future any more");
+          }
+        }
+        [[fallthrough]];
       default: {
         SIM_FAULT("promise_dropped");
         auto dead = std::move(p);
@@ -483,5 +498,5 @@ class Case final : public sim::CaseBase {
 }  // namespace
 
 SIM_HARNESS("C01", "c01_handoff", Case,
-            "LOST DUPLICATE WRONG_RESULT EARLY TORN MOVED_FROM_READ READY_BUT_WRONG READY_WENT_BACK STALE_PAYLOAD WRONG_EXECUTOR "
+            "PROMISE_LOST_BY_FAILED_SET LOST DUPLICATE WRONG_RESULT EARLY TORN MOVED_FROM_READ READY_BUT_WRONG READY_WENT_BACK STALE_PAYLOAD WRONG_EXECUTOR "
             "DEADLOCK NO_PROGRESS LEAK LEAK_OBJECT DOUBLE_DESTROY USE_AFTER_DESTROY JOB_LOST CRASH:*")
